@@ -87,6 +87,11 @@ CLAIMED = {
          "Programs of queries, DML (literal / bound arguments, duplicate keys, syntax errors, unknown tables), prepared statements, explicit local transactions (default, isolation level, read-only; commit or rollback), pinned connections, multi-statement texts, DDL and locking reads, optionally with the server closing the idle pooled connections in between. Outside a global transaction (AT and XA proxies): identical journal (text, arguments, order), identical results (rows, column names/types, affected, last insert id, error number and text), no coordinator traffic. Inside a committed AT global transaction: identical business statement results, identical committed data, same business statements in the same order.",
          "DSN as in seata-go's documentation and tests (interpolateParams=true). Metadata lookups and undo_log traffic are excluded from the journal comparison. Three open findings (C16-K1..K3) are reported as KNOWN-FINDING; a program hit by one of them is not judged further. XA inside a global transaction is C17's subject.",
          "DESIGN.md §4 C16"),
+ "C17": ("fault_enumeration",
+         "runtime monitor with fault injection: statements run through the XA proxy inside global transactions against a fake database that implements the MySQL XA state machine; the XA commands of the database journal are grouped by branch identifier and checked against the legal sequence; identifiers, registrations, caller errors, phase-two answers and durable data are related to each other; a second client process that never saw phase one handles phase two for servers >= 8.0.29",
+         "Autocommit statements and explicit local transactions (1..3 statements), 1..2 branches per global transaction, server versions 5.7.36 / 8.0.32, commit / rollback, phase two on the holder or on another process, and a failure {error, connection lost before / after} at XA START, at the business statement, at XA END, at XA PREPARE, or a refused registration: START < statements < END < PREPARE < exactly one COMMIT or ROLLBACK per identifier; identifier determined by (xid, branch id) and reused by phase two; BranchRegister before XA START; failures before a successful PREPARE reach the caller, end in a rolled-back branch and never in COMMIT; answers match the durable data; nothing dangling.",
+         "The fake database follows the MySQL reference manual's XA state table; InnoDB's XA recovery is not modelled. Two branches of one global transaction use different tables. A PREPARE whose reply was lost gets no verdict.",
+         "DESIGN.md §4 C17"),
  "C18": ("exploration",
          "runtime monitor: ground-truth matched/changed rows recorded by the fake database for the business command vs. the images in the undo_log row read with an independent JSON reader",
          "One intercepted statement per case (UPDATE/DELETE with generated WHERE trees incl. parentheses, IN, BETWEEN, ORDER BY/LIMIT and parameters at every position; INSERT 1-4 rows; upserts; pk-changing updates) over five key shapes and both only-care-update-columns settings: changed rows ⊆ image rows ⊆ matched rows, exact field values, required columns present, pk changes rejected, rejected statements leave nothing durable.",
